@@ -13,4 +13,9 @@ static inline struct pair_pE_pE L0_uninitialized_move_n(E *f, int64_t cnt, E *d)
 static inline const E *L0_initializer_list_E__begin(const struct initializer_list_E *il) { return il->_M_array; }
 static inline const E *L0_initializer_list_E__end(const struct initializer_list_E *il) { return il->_M_array + il->_M_len; }
 #endif
+#if defined(WITH_SETS) && defined(HAVE_GhostCmp)
+static inline _Bool L0_GhostCmp__call(const struct GhostCmp *c, const E *a, const E *b) { return l0_cmp(c->token, a, b); }
+static inline E *L0_lower_bound(const E *f, const E *l, const E *v, struct GhostCmp c) { return (E *)l0_bound(f, l, v, c.token, 0); }
+static inline E *L0_upper_bound(const E *f, const E *l, const E *v, struct GhostCmp c) { return (E *)l0_bound(f, l, v, c.token, 1); }
+#endif
 #endif
